@@ -373,7 +373,15 @@ static void countParams(ChildOut &co, const ColoquinteParameters &p, int mode, c
 // run f in a fresh forked process; "ok" + its text, or how the process ended
 static std::string forked(const std::function<std::string()> &f, std::string &text) {
   std::string diag;
-  std::string how = vh::isolated([&](std::ostream &os) { os << f(); }, text, 240, &diag);
+  static const std::string sentinel = "\x01" "C08-END";
+  std::string how = vh::isolated([&](std::ostream &os) { os << f() << sentinel; }, text, 240, &diag);
+  if (how == "ok") {
+    // the text is complete only with the sentinel (a failed fork() / a broken pipe is not a result)
+    if (text.size() >= sentinel.size() && text.compare(text.size() - sentinel.size(), sentinel.size(), sentinel) == 0)
+      text.erase(text.size() - sentinel.size());
+    else
+      how = "unavailable";
+  }
   // a ThreadSanitizer report of the grandchild belongs to this case (the pool reads this child's stderr)
   if (diag.find("WARNING: ThreadSanitizer") != std::string::npos && write(2, diag.data(), diag.size()) < 0) how = "stderr-unwritable";
   if (how != "ok") {
@@ -492,7 +500,7 @@ static void detCase(ChildOut &co, const std::string &id, vh::Rng &g, bool thorou
       name.pat = pt;
       co.eval();
       co.count(std::string("compared:forked_perturbed_") + name.name());
-      if (how == "timeout") {
+      if (how == "timeout" || how == "unavailable") {
         co.count("forked_run_timeout");
         continue;
       }
@@ -628,7 +636,7 @@ static void orderCase(ChildOut &co, const std::string &id, vh::Rng &g, bool thor
     std::string how = forked([&] { return runOrder(order); }, text);
     co.eval();
     co.count("compared:o:orders");
-    if (how == "timeout") {
+    if (how == "timeout" || how == "unavailable") {
       co.count("forked_run_timeout");
       continue;
     }
@@ -768,7 +776,7 @@ int main(int argc, char **argv) {
         if (parseId(ln)) out.count("corpus");
     // tier `perturb`: the sanitizer-free build driven by tools/props/C08.py (oracle only)
     long long n = a.thorough() ? 6000 : a.search() ? 800 : a.tier == "perturb" ? 1000 : a.tier == "perturbmore" ? 10000 : 400;
-    long long no = a.thorough() ? 3000 : a.search() ? 600 : a.tier == "perturb" ? 500 : a.tier == "perturbmore" ? 5000 : 250;
+    long long no = a.thorough() ? 3000 : a.search() ? 600 : a.tier == "perturb" ? 500 : a.tier == "perturbmore" ? 5000 : 400;
     if (a.only >= 0) jobs.push_back(mkJob('d', a.seed, a.only));
     else {
       // interleaved, so that both streams are reached early
